@@ -559,6 +559,10 @@ def check(ctx):
         o11.sample({'expression': ast.unparse(rhs8)})
     obs.append(ctx.shared('c20', 'C20.4', 'C01.10', 'the run a user asks for ends with the clock at exactly t0 + d only if System.simulate hands that duration to '
                           'Environment.run as it is, in one run (stages of d / n do not add up to d in floating point)'))
+    _o71, _o72, _o73 = _c07.ops_obligations(P)
+    obs.append(ctx.relabel(_o71, 'C01.12', 'a run ends with the clock at t0 + d because its TERMINATE event stays in the queue: a pause call selects exactly the events of the '
+                           'given asset id, and none when no id is given (a "no id = every event" reading withholds the end of the run)'))
+    obs.append(ctx.relabel(_o73, 'C01.13', 'likewise a cancel call marks exactly the events of the given asset id, none without an id (otherwise the run executes events due after its end)'))
     return obs
 
 
